@@ -405,6 +405,7 @@ macro_rules! flavour_mod {
                         Some((b, v)) => (b, v),
                         None => (raw.as_str(), "clone"),
                     };
+                    ext.via = via.to_string();
                     let t: Vec<&str> = body.split(' ').collect();
                     let p = |i: usize| -> usize { t[i].parse::<usize>().expect("number in program") };
                     crate::hook::reset_thread();
